@@ -38,7 +38,7 @@ verus! {
 //@item solver/src/min_cost_flow_solver.rs struct MinCostFlowSolver : plain
 //@end
 
-//@skeleton solver/src/min_cost_flow_solver.rs MinCostFlowSolver::solve_for_vehicle_type : let maximal_formation_count; let number_of_vehicles_required; let lower_bound 0; let capacity = 5dd04540975d0332
+//@skeleton solver/src/min_cost_flow_solver.rs MinCostFlowSolver::solve_for_vehicle_type : let maximal_formation_count; let number_of_vehicles_required; let lower_bound 0; let connection_upper_bound; let capacity = bebd48a1f02f5995
 
 /// the documented stand-in for "no formation limit"
 pub open spec const UNLIMITED_FORMATION: int = 100;
@@ -79,6 +79,21 @@ pub open spec const UNLIMITED_FORMATION: int = 100;
     ensures
         // C02: no more vehicles of the type start at a depot than its per-type and total capacity allow
         r as int == self.network.depots@[depot].0.sp_capacity_for(vehicle_type), // @obl C02.mcf.depot_upper_bound_is_capacity_for
+//@end
+// A-std4 (same text as env/im_shim.vs, which this slice does not include)
+pub assume_specification<'a, T: Copy>[ Option::<&'a T>::copied ](o: Option<&'a T>) -> (r: Option<T>)
+    ensures r == (match o { Some(v) => Some(*v), None => None });
+//@frag solver/src/min_cost_flow_solver.rs MinCostFlowSolver::solve_for_vehicle_type : let connection_upper_bound as frag_connection_upper_bound
+//@params maximal_formation_count_for_vehicle_type: UpperBound, maintenance_slots: &HashMap<NodeIdx, VehicleCount>, node_id: NodeIdx, pred: NodeIdx
+//@ret (r: UpperBound)
+//@sig
+    ensures
+        // C06 (D14): the flow stage sends exactly `count` vehicles through a maintenance slot and all of them may come
+        // from (go to) one and the same neighbour, e.g. the only depot: an edge into / out of the slot must admit them
+        // all, otherwise the circulation can be infeasible and network_simplex(..).unwrap() panics
+        r >= maximal_formation_count_for_vehicle_type,
+        maintenance_slots@.contains_key(node_id) ==> r >= maintenance_slots@[node_id], // @obl C06.mcf.edge_into_a_maintenance_slot_admits_all_its_vehicles
+        maintenance_slots@.contains_key(pred) ==> r >= maintenance_slots@[pred], // @obl C06.mcf.edge_out_of_a_maintenance_slot_admits_all_its_vehicles
 //@end
 } // verus!
 fn main() {}
